@@ -254,6 +254,12 @@ def scenarios_c05():
                 bb = alt[a]
             out.append(('%s:%s|%s:%s' % (a, ha, bb, hb),
                         {'A': writers[a](ha), 'B': writers[bb](hb)}))
+    # the same request twice (identical data, same generation): the second
+    # one to commit finds nothing left to change, yet is stale
+    for a in names:
+        if a != 'reshape':
+            out.append(('%s:cur|%s:cur identical' % (a, a),
+                        {'A': writers[a]('cur'), 'B': writers[a]('cur')}))
     for a in names:
         for dname in sorted(derived):
             out.append(('%s:cur|%s' % (a, dname),
@@ -422,6 +428,24 @@ def scenarios_c07():
     out.append(('new consumer: put:null vs put:0', {
         'A': put_alloc(K3, {E: {'VCPU': 1}}, 'null', 'pA'),
         'B': put_alloc(K3, {E: {'VCPU': 2}}, 0, 'pB')}))
+    # identical guarded writes in flight together: whatever the second one
+    # finds, in every serial order it is stale
+    out.append(('identical: traits', {
+        'A': put_traits(E, 'cur', ['CUSTOM_T1']),
+        'B': put_traits(E, 'cur', ['CUSTOM_T1'])}))
+    out.append(('identical: aggregates', {
+        'A': put_aggs(E, 'cur', [A1, A2]),
+        'B': put_aggs(E, 'cur', [A1, A2])}))
+    out.append(('identical: inventories', {
+        'A': put_invs(E, 'cur', INV3),
+        'B': put_invs(E, 'cur', INV3)}))
+    out.append(('identical: one inventory', {
+        'A': put_inv(E, 'VCPU', 'cur', {'total': 12}),
+        'B': put_inv(E, 'VCPU', 'cur', {'total': 12})}))
+    out.append(('identical: traits x3', {
+        'A': put_traits(E, 'cur', ['CUSTOM_T1']),
+        'B': put_traits(E, 'cur', ['CUSTOM_T1']),
+        'C': put_traits(E, 'cur', ['CUSTOM_T1'])}))
     out.append(('claim vs delete of other consumer + inventory shrink', {
         'A': put_alloc(K3, {E: {'VCPU': 4}}, 'null'),
         'B': put_alloc(K1, {}, 'cur', world.PROJECT, world.USER),
